@@ -4,7 +4,9 @@
  * Oracle              : finishes the irrational step (sqrt, atan2) of a forward record in 40-digit decimals
  * Routes / judge_fwd  : feeds a batch of forward records (one parameter set, many peaks) to every implementation
                          route and compares each output with the oracle (C01)
- * judge_laws / judge_project / judge_inverse : reference-free laws, detector projection and g -> angles (C02)
+ * judge_laws / judge_internal / judge_project / judge_inverse / judge_axis : reference-free laws (incl. the round trip of
+                         the forward routes through uncompute_g_vectors), detector projection, g -> angles and the
+                         gv_general conventions on the SpecAx records (C02)
 
 Comparison rule everywhere: |x - e| <= 1e-9 * scale + 1e-12 (scale = largest magnitude of the expected vector),
 angles modulo 360 at 1e-6 degree, eta not compared where (dy, dz) = (0, 0) exactly.
@@ -20,7 +22,7 @@ SPEC = "Geometry"
 REL = 1e-9
 ABS = 1e-12
 ANGTOL = 1e-6
-INVARIANTS = ("TypeOK", "StackOrtho", "NormLaw", "OmegaLaw", "OriginLaw", "Roundtrip", "EwaldBound", "Emit")
+INVARIANTS = ("TypeOK", "StackOrtho", "NormLaw", "OmegaLaw", "OriginLaw", "Roundtrip", "EwaldBound", "AxisLaw", "Emit")
 FWD_ACTIONS = ("PickSwitches", "PickDetector", "PickPeak", "Place", "Flip", "Tilt", "Shift", "Origin", "Diff",
                "RotateG", "Project")
 INV_ACTIONS = ("Origin", "Diff", "RotateG", "Uncompute")
@@ -212,18 +214,24 @@ class Judge(object):
         if got.shape != exp.shape:
             self.problems.append("%s: shape %s, expected %s" % (label, got.shape, exp.shape))
             return
-        scale = np.abs(exp).max(axis=1) if exp.ndim == 2 else np.abs(exp)
+        err = np.abs(got - exp)
+        scale = np.abs(exp)
+        if exp.ndim == 2:
+            err = err.max(axis=1)
+            scale = scale.max(axis=1)
         tol = REL * scale + ABS
         if widen is not None:
             tol = tol * widen
-        err = np.abs(got - exp)
-        if exp.ndim == 2:
-            err = err.max(axis=1)
+        ok = self.ok
         with np.errstate(invalid="ignore"):
-            bad = ~(err <= tol) & self.ok
-        self.ncmp += int(self.ok.sum())
-        if self.ok.any():
-            self.worst = max(self.worst, float(np.nanmax(np.where(self.ok, err / tol, 0.0))))
+            ratio = err / tol
+            bad = ~(ratio <= 1.0) & ok               # a NaN where a number is expected is a disagreement
+        r = ratio[ok]
+        self.ncmp += r.size
+        if r.size:
+            m = float(np.fmax.reduce(r))             # (ignores NaN: those rows are reported as bad)
+            if m > self.worst:
+                self.worst = m
         if bad.any():
             self._report(label, bad, got, exp)
 
@@ -252,13 +260,14 @@ class Routes(object):
     """imports ImageD11 (after common.use_shadow) and compiles the numba copies once"""
 
     def __init__(self, numba_routes=True):
-        from ImageD11 import transform, cImageD11, columnfile, parameters, refinegrains, gv_general
+        from ImageD11 import transform, cImageD11, columnfile, parameters, refinegrains, gv_general, grain
         self.transform = transform
         self.c = cImageD11
         self.columnfile = columnfile
         self.parameters = parameters
         self.refinegrains = refinegrains
         self.gv_general = gv_general
+        self.grain = grain
         self.pbp = None
         if numba_routes:
             with contextlib.redirect_stdout(io.StringIO()):
@@ -267,6 +276,13 @@ class Routes(object):
         with contextlib.redirect_stdout(io.StringIO()):
             self.rg_plain = refinegrains.refinegrains(OmFloat=False)
             self.rg_float = refinegrains.refinegrains(OmFloat=True, OmSlop=0.0)
+        self._parfile = None
+
+    def parfile(self):
+        """one parameter file under the scratch directory, rewritten for every use"""
+        if self._parfile is None:
+            self._parfile = os.path.join(common.scratch(), "c01_geometry.par")
+        return self._parfile
 
 
 class _Grain(object):
@@ -310,231 +326,576 @@ def exact_rmat(par):
     return np.array([[float(x) for x in row] for row in m]).ravel()
 
 
-def judge_fwd(rt, orc, routes=("py", "c", "cf", "numba", "rg")):
-    """run one batch through the implementation routes; returns (problems, worst ratio, comparisons)"""
-    J = Judge(orc.ok)
-    P = orc.P
+def typed_pars(rt, P, how):
+    """The same parameter values with the Python types a parameter file yields (parameters.dumbtypecheck): integral
+    values are ints ("o11 1", "omegasign -1", "wedge 0", "distance 60"), the others floats.
+      how = "int": the dictionary is built directly
+      how = "str": every value is written as text ('1', '-90', repr(float)) and goes through
+                   parameters.set_parameters -> dumbtypecheck
+    returns (dictionary, problem or None)"""
+    want = {k: (int(v) if float(v).is_integer() else float(v)) for k, v in P.items()}
+    if how == "int":
+        return want, None
+    po = rt.parameters.parameters()
+    po.set_parameters({k: (str(v) if isinstance(v, int) else repr(v)) for k, v in want.items()})
+    got = dict(po.parameters)
+    for k in want:
+        if type(got.get(k)) is not type(want[k]) or got[k] != want[k]:
+            return want, "parameters.set_parameters / dumbtypecheck turned %s = %r into %r" % (k, want[k], got.get(k))
+    return got, None
+
+
+def shifted_g(orc, offsets, which, use_origin):
+    """expected g-vectors when the diffraction origin of row i is moved by offsets[which[i]] (Fractions) along the beam:
+    d = xyz - xoff e_x (- o if use_origin), g = G (d/|d| - e_x)/lambda; exact up to the final square root.
+    Rows of a tiled batch repeat the records: each (record, offset) pair is evaluated once.  returns (g, ok)"""
+    n = orc.n
+    m = len(orc.recs)
+    which = np.asarray(which, int)
+    pair = (np.arange(n) % m) * len(offsets) + which
+    uniq, inv = np.unique(pair, return_inverse=True)
+    ug = np.zeros((len(uniq), 3))
+    uok = np.ones(len(uniq), bool)
+    for j, pr in enumerate(uniq):
+        r = orc.recs[int(pr) // len(offsets)]
+        xoff = offsets[int(pr) % len(offsets)]
+        xn, xd = r["xyz"]
+        dloc = [F(xn[0], xd) - xoff, F(xn[1], xd), F(xn[2], xd)]
+        if use_origin:
+            on, od = r["org"]
+            dloc = [dloc[c] - F(on[c], od) for c in range(3)]
+        n2 = sum(x * x for x in dloc)
+        if n2 == 0:
+            uok[j] = False
+            continue
+        Gn, Gd = r["G"]
+        absd = (D(n2.numerator) / D(n2.denominator)).sqrt()
+        u = [D(x.numerator) / D(x.denominator) / absd for x in dloc]
+        kk = [u[0] - 1, u[1], u[2]]
+        lamd = D(r["par"]["wl"][0]) / D(r["par"]["wl"][1])
+        ug[j] = [float(sum(D(Gn[c][e]) * kk[e] for e in range(3)) / D(Gd) / lamd) for c in range(3)]
+    return ug[inv], orc.ok & uok[inv]
+
+
+LOCAL_GRIDS = ((2, -3, F(1, 2)), (0, 0, F(1, 2)), (-1, 4, F(-1, 4)))
+GEOCOLS = ("xl", "yl", "zl", "tth", "eta", "ds", "gx", "gy", "gz")
+# options: cf_file = cf also runs the history through a parameter file on disk; cf_nohist = cf without the histories of
+# one object; al_last / al_first = only that position of the batch's grain in assignlabels (default: both);
+# numba_1grid = get_local_gv on the first grid only
+ALL_ROUTES = ("py", "c", "ct", "cf", "cf_file", "cfx", "numba", "rg", "al")
+FAMILIES = ("cfx_xc_yc", "cfx_array2d_prefilled", "cfx_array2d_bare", "cfx_copy", "cfx_filter", "cfx_bigarray_after_update",
+            "assignlabels_gv_rows", "assignlabels_per_grain_rows", "typed_batches", "typed_numba", "gve_per_row_xpos_rows",
+            "local_gv_grids", "ctransform_out_buffers", "ctransform_reset", "ctransform_source_edit", "xlylzl_dist_yz",
+            "inputs_intact_checks")
+
+
+class _Ctx(object):
+    """one batch on its way through the route families"""
+
+    def __init__(self, rt, orc, J, P, typing, count, parfile=True):
+        self.rt, self.orc, self.J, self.P, self.typing = rt, orc, J, P, typing
+        self.parfile = parfile          # also run the history that goes through a parameter file on disk
+        self.histories = True           # histories of one columnfile object
+        self.orders = ("last", "first")  # position of this batch's grain among the two of assignlabels
+        self.grids = len(LOCAL_GRIDS)    # how many (si, sj, ystep) grids of get_local_gv
+        self.tag = "" if typing is None else " [parameters typed as a parameter file yields: %s]" % typing
+        self.t = (P["t_x"], P["t_y"], P["t_z"])
+        self.count = count if count is not None else {}
+        self.pristine = {k: getattr(orc, k).copy() for k in ("sc", "fc", "omega", "oms", "xyz")}
+        # a second, different parameter set (histories: computed first, must not survive)
+        Q = orc.P
+        P0 = dict(P)
+        P0.update(o11=-Q["o11"], o12=Q["o21"], o21=Q["o12"], tilt_x=Q["tilt_y"] + 0.1, tilt_y=Q["tilt_z"] - 0.05,
+                  tilt_z=Q["tilt_x"] + 0.02, wedge=Q["wedge"] + 7.0, chi=Q["chi"] - 3.0, distance=Q["distance"] * 1.5,
+                  y_center=Q["y_center"] + 31.0, z_center=Q["z_center"] - 17.0, y_size=Q["y_size"] * 2, z_size=-Q["z_size"],
+                  omegasign=-Q["omegasign"], wavelength=Q["wavelength"] * 1.25, t_x=Q["t_x"] + 5.0, t_y=Q["t_y"] - 7.0,
+                  t_z=Q["t_z"] + 3.0)
+        self.P0 = P0
+
+    def hit(self, family, k=1):
+        self.count[family] = self.count.get(family, 0) + k
+
+    def vec(self, label, got, exp, **kw):
+        self.J.vec(label + self.tag, got, exp, **kw)
+
+    def ang(self, label, got, exp, **kw):
+        self.J.ang(label + self.tag, got, exp, **kw)
+
+    def geometry_cols(self, label, xyz, tth, eta, ds, g):
+        orc = self.orc
+        if xyz is not None:
+            self.vec(label + " xl,yl,zl", xyz, orc.xyz)
+        if tth is not None:
+            self.ang(label + " tth", tth, orc.tth, modulo=False)
+            self.ang(label + " eta", eta, orc.eta)
+        if ds is not None:
+            self.vec(label + " ds", ds, orc.ds)
+        if g is not None:
+            self.vec(label + " gx,gy,gz", g, orc.g)
+
+    def same_bits(self, a, name):
+        a = np.asarray(a)
+        b = self.pristine[name]
+        return a.shape == b.shape and a.dtype == b.dtype and a.tobytes() == b.tobytes()
+
+    def inputs_intact(self, where):
+        """the arrays handed to the routes of a family are bit-identical afterwards (restored if not)"""
+        for name in ("sc", "fc", "omega", "oms", "xyz"):
+            a = getattr(self.orc, name)
+            self.hit("inputs_intact_checks")
+            if not self.same_bits(a, name):
+                self.J.problems.append("%s%s modified its input array %s in place" % (where, self.tag, name))
+                setattr(self.orc, name, self.pristine[name].copy())
+
+    def colfile(self, names=("sc", "fc")):
+        o = self.orc
+        return self.rt.columnfile.colfile_from_dict({names[0]: o.sc.copy(), names[1]: o.fc.copy(), "omega": o.omega.copy()})
+
+    def cf_cols(self, label, cf, names=("sc", "fc"), only_g=False, views=1):
+        """the nine geometry columns of a columnfile (attribute, getcolumn and - where the storage is one 2-D array -
+        the array rows must all show the same numbers) and its untouched input columns"""
+        J = self.J
+        for col, name in zip(names + ("omega",), ("sc", "fc", "omega")):
+            self.hit("inputs_intact_checks")
+            if not self.same_bits(np.asarray(getattr(cf, col), float), name):
+                J.problems.append("%s%s changed the input column %s" % (label, self.tag, col))
+        want = ("gx", "gy", "gz") if only_g else GEOCOLS
+        for k in want:
+            if k not in cf.titles:
+                J.problems.append("%s%s: column %s missing" % (label, self.tag, k))
+                return
+        for vt, get in (("", lambda k: getattr(cf, k)), (" [getcolumn]", lambda k: cf.getcolumn(k)))[:views]:
+            g = np.array([get("gx"), get("gy"), get("gz")]).T
+            if only_g:
+                self.vec(label + vt + " gx,gy,gz", g, self.orc.g)
+            else:
+                self.geometry_cols(label + vt, np.array([get("xl"), get("yl"), get("zl")]).T, get("tth"), get("eta"),
+                                   get("ds"), g)
+
+
+def _with_pars(ctx, cf, PP):
+    cf.parameters = ctx.rt.parameters.parameters(**PP)
+    return cf
+
+
+# ---- (1) the documented Python reference, stage by stage
+def _sec_py(ctx):
+    rt, orc, J, P, t = ctx.rt, ctx.orc, ctx.J, ctx.P, ctx.t
+    tr = rt.transform
+    sc, fc, oms = orc.sc, orc.fc, orc.oms
+    lam = P["wavelength"]
+    tkw = dict(t_x=t[0], t_y=t[1], t_z=t[2], wedge=P["wedge"], chi=P["chi"])
+    xyz = tr.compute_xyz_lab(np.array([sc, fc]), **P)
+    ctx.vec("transform.compute_xyz_lab", xyz.T, orc.xyz)
+    tth, eta = tr.compute_tth_eta_from_xyz(xyz, oms, **tkw)
+    ctx.ang("transform.compute_tth_eta_from_xyz tth", tth, orc.tth, modulo=False)
+    ctx.ang("transform.compute_tth_eta_from_xyz eta", eta, orc.eta)
+    tth2, eta2 = tr.compute_tth_eta(np.array([sc, fc]), omega=oms, **P)
+    ctx.ang("transform.compute_tth_eta tth", tth2, orc.tth, modulo=False)
+    ctx.ang("transform.compute_tth_eta eta", eta2, orc.eta)
+    go = tr.compute_grain_origins(oms, wedge=P["wedge"], chi=P["chi"], t_x=t[0], t_y=t[1], t_z=t[2])
+    ctx.vec("transform.compute_grain_origins", go.T, orc.org)
+    k = tr.compute_k_vectors(tth, eta, lam)
+    ctx.vec("transform.compute_k_vectors", k.T, orc.k)
+    g = tr.compute_g_from_k(k, oms, P["wedge"], P["chi"])
+    ctx.vec("transform.compute_g_from_k", g.T, orc.g)
+    g2 = tr.compute_g_vectors(tth, eta, oms, lam, wedge=P["wedge"], chi=P["chi"])
+    ctx.vec("transform.compute_g_vectors", g2.T, orc.g)
+    # fed with the oracle's angles (not the route's own), where eta is defined
+    e0 = np.where(np.isfinite(orc.eta), orc.eta, 0.0)
+    g3 = tr.compute_g_vectors(orc.tth, e0, oms, lam, wedge=P["wedge"], chi=P["chi"])
+    ctx.vec("transform.compute_g_vectors(oracle tth, eta)", g3.T, orc.g)
+    with np.errstate(invalid="ignore", divide="ignore"):
+        s2 = tr.compute_sinsqth_from_xyz((xyz - go))
+    back = (orc.d[:, 1] == 0) & (orc.d[:, 2] == 0) & (orc.d[:, 0] < 0)     # 0/0 in the documented formula
+    keep = J.ok
+    J.ok = J.ok & ~back
+    ctx.vec("transform.compute_sinsqth_from_xyz", s2, orc.sinsqth)
+    J.ok = keep
+
+
+# ---- (2) the compiled fast path through Ctransform and raw
+def _sec_c(ctx):
+    rt, orc, P, t = ctx.rt, ctx.orc, ctx.P, ctx.t
     tr = rt.transform
     n = orc.n
-    sc, fc, om, oms = orc.sc, orc.fc, orc.omega, orc.oms
-    t = (P["t_x"], P["t_y"], P["t_z"])
-    tkw = dict(t_x=t[0], t_y=t[1], t_z=t[2], wedge=P["wedge"], chi=P["chi"])
+    sc, fc, om = orc.sc, orc.fc, orc.omega
     lam = P["wavelength"]
+    ct = tr.Ctransform(dict(P))
+    xyz = ct.sf2xyz(sc, fc)
+    ctx.vec("Ctransform.sf2xyz", xyz, orc.xyz)
+    gv = ct.xyz2gv(xyz, om, t[0], t[1], t[2])
+    ctx.vec("Ctransform.xyz2gv", gv, orc.g)
+    geo = ct.xyz2geometry(xyz, om, t[0], t[1], t[2])
+    ctx.geometry_cols("Ctransform.xyz2geometry", None, geo[:, 0], geo[:, 1], geo[:, 2], geo[:, 3:6])
+    gv2 = ct.sf2gv(sc, fc, om, t[0], t[1], t[2])
+    ctx.vec("Ctransform.sf2gv", gv2, orc.g)
+    # raw kernels with a packing made by the harness from the exact rationals
+    cen = np.array([P["z_center"], P["y_center"], P["z_size"], P["y_size"]], float)
+    out = np.full((n, 3), 7.25)
+    rt.c.compute_xlylzl(sc, fc, cen, exact_rmat(orc.par), np.array([P["distance"], 0.0, 0.0]), out)
+    ctx.vec("cImageD11.compute_xlylzl", out, orc.xyz)
+    # the documented "3D distance" arm: dist = [distance, dy, dz] moves the detector sideways and up
+    out = np.full((n, 3), 7.25)
+    rt.c.compute_xlylzl(sc, fc, cen, exact_rmat(orc.par), np.array([P["distance"], 2.5, -1.75]), out)
+    ctx.vec("cImageD11.compute_xlylzl(dist = [distance, 2.5, -1.75])", out, orc.xyz + np.array([0.0, 2.5, -1.75]))
+    ctx.hit("xlylzl_dist_yz")
+    xe = np.ascontiguousarray(orc.xyz)
+    gout = np.full((n, 3), 7.25)
+    rt.c.compute_gv(xe, om, P["omegasign"], lam, P["wedge"], P["chi"], np.array(t, float), gout)
+    ctx.vec("cImageD11.compute_gv", gout, orc.g)
+    geo = np.full((n, 6), 7.25)
+    rt.c.compute_geometry(xe, om, P["omegasign"], lam, P["wedge"], P["chi"], np.array(t, float), geo)
+    ctx.geometry_cols("cImageD11.compute_geometry", None, geo[:, 0], geo[:, 1], geo[:, 2], geo[:, 3:6])
 
-    def geometry_cols(label, xyz, tth, eta, ds, g):
-        if xyz is not None:
-            J.vec(label + " xl,yl,zl", xyz, orc.xyz)
-        if tth is not None:
-            J.ang(label + " tth", tth, orc.tth, modulo=False)
-            J.ang(label + " eta", eta, orc.eta)
-        if ds is not None:
-            J.vec(label + " ds", ds, orc.ds)
-        if g is not None:
-            J.vec(label + " gx,gy,gz", g, orc.g)
 
-    # ---- (1) the documented Python reference, stage by stage
-    if "py" in routes:
-        xyz = tr.compute_xyz_lab(np.array([sc, fc]), **P)
-        J.vec("transform.compute_xyz_lab", xyz.T, orc.xyz)
-        tth, eta = tr.compute_tth_eta_from_xyz(xyz, oms, **tkw)
-        J.ang("transform.compute_tth_eta_from_xyz tth", tth, orc.tth, modulo=False)
-        J.ang("transform.compute_tth_eta_from_xyz eta", eta, orc.eta)
-        tth2, eta2 = tr.compute_tth_eta(np.array([sc, fc]), omega=oms, **P)
-        J.ang("transform.compute_tth_eta tth", tth2, orc.tth, modulo=False)
-        J.ang("transform.compute_tth_eta eta", eta2, orc.eta)
-        go = tr.compute_grain_origins(oms, wedge=P["wedge"], chi=P["chi"], t_x=t[0], t_y=t[1], t_z=t[2])
-        J.vec("transform.compute_grain_origins", go.T, orc.org)
-        k = tr.compute_k_vectors(tth, eta, lam)
-        J.vec("transform.compute_k_vectors", k.T, orc.k)
-        g = tr.compute_g_from_k(k, oms, P["wedge"], P["chi"])
-        J.vec("transform.compute_g_from_k", g.T, orc.g)
-        g2 = tr.compute_g_vectors(tth, eta, oms, lam, wedge=P["wedge"], chi=P["chi"])
-        J.vec("transform.compute_g_vectors", g2.T, orc.g)
-        # fed with the oracle's angles (not the route's own), where eta is defined
-        e0 = np.where(np.isfinite(orc.eta), orc.eta, 0.0)
-        g3 = tr.compute_g_vectors(orc.tth, e0, oms, lam, wedge=P["wedge"], chi=P["chi"])
-        J.vec("transform.compute_g_vectors(oracle tth, eta)", g3.T, orc.g)
-        with np.errstate(invalid="ignore", divide="ignore"):
-            s2 = tr.compute_sinsqth_from_xyz((xyz - go))
-        back = (orc.d[:, 1] == 0) & (orc.d[:, 2] == 0) & (orc.d[:, 0] < 0)     # 0/0 in the documented formula
-        keep = J.ok
-        J.ok = J.ok & ~back
-        J.vec("transform.compute_sinsqth_from_xyz", s2, orc.sinsqth)
-        J.ok = keep
+# ---- (2b) Ctransform: caller-supplied out= buffers, histories of one object
+def _sec_ct(ctx):
+    rt, orc, J, P, t = ctx.rt, ctx.orc, ctx.J, ctx.P, ctx.t
+    tr = rt.transform
+    n = orc.n
+    sc, fc, om = orc.sc, orc.fc, orc.omega
+    xe = np.ascontiguousarray(orc.xyz)
 
-    # ---- (2) the compiled fast path through Ctransform and raw
-    if "c" in routes:
-        ct = tr.Ctransform(P)
-        xyz = ct.sf2xyz(sc, fc)
-        J.vec("Ctransform.sf2xyz", xyz, orc.xyz)
-        gv = ct.xyz2gv(xyz, om, t[0], t[1], t[2])
-        J.vec("Ctransform.xyz2gv", gv, orc.g)
-        geo = ct.xyz2geometry(xyz, om, t[0], t[1], t[2])
-        geometry_cols("Ctransform.xyz2geometry", None, geo[:, 0], geo[:, 1], geo[:, 2], geo[:, 3:6])
-        gv2 = ct.sf2gv(sc, fc, om, t[0], t[1], t[2])
-        J.vec("Ctransform.sf2gv", gv2, orc.g)
-        # raw kernels with a packing made by the harness from the exact rationals
-        out = np.full((n, 3), 7.25)
-        rt.c.compute_xlylzl(sc, fc, np.array([P["z_center"], P["y_center"], P["z_size"], P["y_size"]]),
-                            exact_rmat(orc.par), np.array([P["distance"], 0.0, 0.0]), out)
-        J.vec("cImageD11.compute_xlylzl", out, orc.xyz)
-        xe = np.ascontiguousarray(orc.xyz)
-        gout = np.full((n, 3), 7.25)
-        rt.c.compute_gv(xe, om, P["omegasign"], lam, P["wedge"], P["chi"], np.array(t), gout)
-        J.vec("cImageD11.compute_gv", gout, orc.g)
-        geo = np.full((n, 6), 7.25)
-        rt.c.compute_geometry(xe, om, P["omegasign"], lam, P["wedge"], P["chi"], np.array(t), geo)
-        geometry_cols("cImageD11.compute_geometry", None, geo[:, 0], geo[:, 1], geo[:, 2], geo[:, 3:6])
+    def buffers(ct, what):
+        for name, shape, call, judge in (
+                ("sf2xyz", (n, 3), lambda o: ct.sf2xyz(sc, fc, out=o), lambda o: ctx.vec(what + "sf2xyz(out=)", o, orc.xyz)),
+                ("xyz2gv", (n, 3), lambda o: ct.xyz2gv(xe, om, t[0], t[1], t[2], out=o),
+                 lambda o: ctx.vec(what + "xyz2gv(out=)", o, orc.g)),
+                ("sf2gv", (n, 3), lambda o: ct.sf2gv(sc, fc, om, t[0], t[1], t[2], out=o),
+                 lambda o: ctx.vec(what + "sf2gv(out=)", o, orc.g)),
+                ("xyz2geometry", (n, 6), lambda o: ct.xyz2geometry(xe, om, t[0], t[1], t[2], out=o),
+                 lambda o: ctx.geometry_cols(what + "xyz2geometry(out=)", None, o[:, 0], o[:, 1], o[:, 2], o[:, 3:6]))):
+            buf = np.full(shape, 7.25)
+            r = call(buf)
+            if r is not buf:
+                J.problems.append("%s%s(out=buffer)%s does not return the caller's buffer" % (what, name, ctx.tag))
+            judge(buf)
+            ctx.hit("ctransform_out_buffers")
 
-    # ---- (3) columnfile fast / slow, translation by parameter and by argument
-    if "cf" in routes:
-        for how in ("parameter", "argument"):
-            PP = dict(P)
-            trans = None
-            if how == "argument":
-                PP["t_x"], PP["t_y"], PP["t_z"] = 11.0, -13.0, 17.0     # must be overridden by the argument
-                trans = t
-            for fast in (True, False):
-                cf = rt.columnfile.colfile_from_dict({"sc": sc.copy(), "fc": fc.copy(), "omega": om.copy()})
-                cf.parameters = rt.parameters.parameters(**PP)
-                cf.updateGeometry(translation=trans, fast=fast)
-                lab = "columnfile.updateGeometry(fast=%s, translation by %s)" % (fast, how)
-                geometry_cols(lab, np.array([cf.xl, cf.yl, cf.zl]).T, cf.tth, cf.eta, cf.ds,
-                              np.array([cf.gx, cf.gy, cf.gz]).T)
-                cf2 = rt.columnfile.colfile_from_dict({"sc": sc.copy(), "fc": fc.copy(), "omega": om.copy()})
-                cf2.updateGV(pars=rt.parameters.parameters(**PP), translation=trans, fast=fast)
-                J.vec("columnfile.updateGV(fast=%s, translation by %s)" % (fast, how),
-                      np.array([cf2.gx, cf2.gy, cf2.gz]).T, orc.g)
+    buffers(tr.Ctransform(dict(P)), "Ctransform.")
+    # an object made for other parameters, .pars edited in place, reset(): nothing of the earlier packing may survive
+    ct = tr.Ctransform(dict(ctx.P0))             # (copies: the harness's own dictionaries are never shared)
+    ct.sf2gv(sc, fc, om, 1.0, 2.0, 3.0)
+    for k in ct.pnames:
+        ct.pars[k] = P[k]
+    ct.reset()
+    buffers(ct, "Ctransform after .pars edited and reset(): ")
+    ctx.hit("ctransform_reset")
+    # the constructor copies its parameters: editing the source dictionary afterwards changes nothing
+    src = dict(P)
+    ct = tr.Ctransform(src)
+    src.update(dict(ctx.P0))
+    ctx.vec("Ctransform.sf2gv after the source dictionary was edited", ct.sf2gv(sc, fc, om, t[0], t[1], t[2]), orc.g)
+    geo = ct.xyz2geometry(ct.sf2xyz(sc, fc), om, t[0], t[1], t[2])
+    ctx.geometry_cols("Ctransform.xyz2geometry after the source dictionary was edited", None, geo[:, 0], geo[:, 1],
+                      geo[:, 2], geo[:, 3:6])
+    ctx.hit("ctransform_source_edit")
 
-        # histories on ONE columnfile object: an update with other parameters first, then the parameters are edited in
-        # place (parameters.set / dictionary update - the idiom of dataset.update_colfile_pars and of fitting loops) and the
-        # object is updated again; nothing computed for the earlier parameters may survive
-        P0 = dict(P)
-        P0.update(o11=-P["o11"], o12=P["o21"], o21=P["o12"], tilt_x=P["tilt_y"] + 0.1, tilt_y=P["tilt_z"] - 0.05,
-                  tilt_z=P["tilt_x"] + 0.02, wedge=P["wedge"] + 7.0, chi=P["chi"] - 3.0, distance=P["distance"] * 1.5,
-                  y_center=P["y_center"] + 31.0, z_center=P["z_center"] - 17.0, y_size=P["y_size"] * 2, z_size=-P["z_size"],
-                  omegasign=-P["omegasign"], wavelength=P["wavelength"] * 1.25, t_x=P["t_x"] + 5.0, t_y=P["t_y"] - 7.0,
-                  t_z=P["t_z"] + 3.0)
+
+# ---- (3) columnfile fast / slow, translation by parameter and by argument
+def _sec_cf(ctx):
+    rt, orc, P, t = ctx.rt, ctx.orc, ctx.P, ctx.t
+    for how in ("parameter", "argument"):
+        PP = dict(P)
+        trans = None
+        if how == "argument":
+            PP["t_x"], PP["t_y"], PP["t_z"] = 11.0, -13.0, 17.0     # must be overridden by the argument
+            trans = t
         for fast in (True, False):
-            for edit in ("set", "dict.update", "loadparameters"):
-                cf = rt.columnfile.colfile_from_dict({"sc": sc.copy(), "fc": fc.copy(), "omega": om.copy()})
-                cf.parameters = rt.parameters.parameters(**P0)
-                cf.updateGeometry(fast=fast)
-                if edit == "set":
-                    for k in sorted(P):
-                        cf.parameters.set(k, P[k])
-                elif edit == "dict.update":
-                    cf.parameters.parameters.update(P)
-                else:
-                    import tempfile
-                    fd, fn = tempfile.mkstemp(suffix=".par")
-                    os.close(fd)
-                    try:
-                        rt.parameters.parameters(**P).saveparameters(fn)
-                        cf.parameters.loadparameters(fn)
-                    finally:
-                        os.unlink(fn)
-                    if any(cf.parameters.get(k) != P[k] for k in P):
-                        continue                # (a value that does not survive the text file: not this property)
-                cf.updateGeometry(fast=fast)
-                lab = "columnfile.updateGeometry(fast=%s) after an update with other parameters and an in-place edit (%s)" % (fast, edit)
-                geometry_cols(lab, np.array([cf.xl, cf.yl, cf.zl]).T, cf.tth, cf.eta, cf.ds,
-                              np.array([cf.gx, cf.gy, cf.gz]).T)
-            cf2 = rt.columnfile.colfile_from_dict({"sc": sc.copy(), "fc": fc.copy(), "omega": om.copy()})
-            po = rt.parameters.parameters(**P0)
-            cf2.updateGV(pars=po, fast=fast)
-            for k in sorted(P):
-                po.set(k, P[k])
-            cf2.updateGV(pars=po, fast=fast)
-            J.vec("columnfile.updateGV(fast=%s) twice with one parameter object edited in between" % fast,
-                  np.array([cf2.gx, cf2.gy, cf2.gz]).T, orc.g)
+            cf = _with_pars(ctx, ctx.colfile(), PP)
+            cf.updateGeometry(translation=trans, fast=fast)
+            ctx.cf_cols("columnfile.updateGeometry(fast=%s, translation by %s)" % (fast, how), cf)
+            cf2 = ctx.colfile()
+            cf2.updateGV(pars=rt.parameters.parameters(**PP), translation=trans, fast=fast)
+            ctx.cf_cols("columnfile.updateGV(fast=%s, translation by %s)" % (fast, how), cf2, only_g=True)
 
-    # ---- (4) numba point-by-point copies (no omegasign argument: callers pre-multiply) and get_local_gv
-    if "numba" in routes and rt.pbp is not None:
-        pbp = rt.pbp
-        det = dict(y_center=P["y_center"], y_size=P["y_size"], tilt_y=P["tilt_y"], z_center=P["z_center"],
-                   z_size=P["z_size"], tilt_z=P["tilt_z"], tilt_x=P["tilt_x"], distance=P["distance"],
-                   o11=P["o11"], o12=P["o12"], o21=P["o21"], o22=P["o22"])
-        xyz = pbp.compute_xyz_lab(sc, fc, **det)
-        J.vec("point_by_point.compute_xyz_lab", xyz.T, orc.xyz)
-        go = pbp.compute_grain_origins(oms, P["wedge"], P["chi"], t[0], t[1], t[2])
-        J.vec("point_by_point.compute_grain_origins", go.T, orc.org)
-        tth, eta = pbp.compute_tth_eta(sc, fc, oms, t_x=t[0], t_y=t[1], t_z=t[2], wedge=P["wedge"], chi=P["chi"], **det)
-        J.ang("point_by_point.compute_tth_eta tth", tth, orc.tth, modulo=False)
-        J.ang("point_by_point.compute_tth_eta eta", eta, orc.eta)
-        tth3, eta3 = pbp.compute_tth_eta_from_xyz(xyz, oms, t_x=t[0], t_y=t[1], t_z=t[2], wedge=P["wedge"], chi=P["chi"])
-        J.ang("point_by_point.compute_tth_eta_from_xyz tth", tth3, orc.tth, modulo=False)
-        J.ang("point_by_point.compute_tth_eta_from_xyz eta", eta3, orc.eta)
-        k = pbp.compute_k_vectors(tth, eta, lam)
-        J.vec("point_by_point.compute_k_vectors", k.T, orc.k)
-        g = pbp.compute_g_vectors(tth, eta, oms, lam, wedge=P["wedge"], chi=P["chi"])
-        J.vec("point_by_point.compute_g_vectors", g.T, orc.g)
-        for x0 in (0.0, 2.5):
-            gve = pbp.compute_gve(sc, fc, oms, np.full(n, x0), P["distance"] + x0, P["y_center"], P["y_size"],
-                                  P["tilt_y"], P["z_center"], P["z_size"], P["tilt_z"], P["tilt_x"],
-                                  P["o11"], P["o12"], P["o21"], P["o22"], t[0], t[1], t[2], P["wedge"], P["chi"], lam)
-            J.vec("point_by_point.compute_gve(xpos=%g)" % x0, gve.T, orc.g)
-        # get_local_gv: origin moved along x by sx cos(omega) - sy sin(omega), t = 0, then cImageD11.compute_gv
-        si, sj, ystep = 2, -3, 0.5
-        sx, sy = F(si) * F(1, 2), -F(sj) * F(1, 2)
-        eg = np.zeros((n, 3))
-        okl = orc.ok.copy()
-        cs = np.zeros(n)
-        sn = np.zeros(n)
-        uniq = {}
-        for i in range(n):
-            r = orc.recs[i % len(orc.recs)]
-            a = r["par"]["omega"]
-            cs[i], sn[i] = a[0] / float(a[2]), a[1] / float(a[2])
-            key = (i % len(orc.recs))
-            if key not in uniq:
-                xoff = sx * F(a[0], a[2]) - sy * F(a[1], a[2])
-                xn, xd = r["xyz"]
-                dloc = [F(xn[0], xd) - xoff, F(xn[1], xd), F(xn[2], xd)]
-                n2 = sum(x * x for x in dloc)
-                if n2 == 0:
-                    uniq[key] = None
-                else:
-                    Gn, Gd = r["G"]
-                    absd = (D(n2.numerator) / D(n2.denominator)).sqrt()
-                    u = [D(x.numerator) / D(x.denominator) / absd for x in dloc]
-                    kk = [u[0] - 1, u[1], u[2]]
-                    lamd = D(r["par"]["wl"][0]) / D(r["par"]["wl"][1])
-                    uniq[key] = [float(sum(D(Gn[j][c]) * kk[c] for c in range(3)) / D(Gd) / lamd) for j in range(3)]
-            if uniq[key] is None:
-                okl[i] = False
+    # histories on ONE columnfile object: an update with other parameters first, then the parameters are edited in
+    # place (parameters.set / dictionary update - the idiom of dataset.update_colfile_pars and of fitting loops) and the
+    # object is updated again; nothing computed for the earlier parameters may survive
+    if not ctx.histories:
+        return
+    P0 = ctx.P0
+    for fast in (True, False):
+        for edit in ("set", "dict.update", "loadparameters") if ctx.parfile else ("set", "dict.update"):
+            cf = _with_pars(ctx, ctx.colfile(), P0)
+            cf.updateGeometry(fast=fast)
+            if edit == "set":
+                for k in sorted(P):
+                    cf.parameters.set(k, P[k])
+            elif edit == "dict.update":
+                cf.parameters.parameters.update(P)
             else:
-                eg[i] = uniq[key]
+                fn = rt.parfile()
+                rt.parameters.parameters(**P).saveparameters(fn)
+                cf.parameters.loadparameters(fn)
+                if any(cf.parameters.get(k) != P[k] for k in P):
+                    continue                # (a value that does not survive the text file: not this property)
+            cf.updateGeometry(fast=fast)
+            ctx.cf_cols("columnfile.updateGeometry(fast=%s) after an update with other parameters and an in-place edit (%s)"
+                        % (fast, edit), cf)
+        cf2 = ctx.colfile()
+        po = rt.parameters.parameters(**P0)
+        cf2.updateGV(pars=po, fast=fast)
+        for k in sorted(P):
+            po.set(k, P[k])
+        cf2.updateGV(pars=po, fast=fast)
+        ctx.cf_cols("columnfile.updateGV(fast=%s) twice with one parameter object edited in between" % fast, cf2, only_g=True)
+
+
+# ---- (3b) columnfile storage and naming variants (the model does not know how a columnfile stores its columns:
+#           harness-only instance family, same oracle)
+def _sec_cfx(ctx):
+    rt, orc, P = ctx.rt, ctx.orc, ctx.P
+    n = orc.n
+    CF = rt.columnfile
+    for fast in (True, False):
+        # (a) peak positions under the titles xc, yc
+        cf = _with_pars(ctx, ctx.colfile(("xc", "yc")), P)
+        cf.updateGeometry(fast=fast)
+        ctx.cf_cols("columnfile with xc,yc titles .updateGeometry(fast=%s)" % fast, cf, names=("xc", "yc"), views=2)
+        cf = ctx.colfile(("xc", "yc"))
+        cf.updateGV(pars=rt.parameters.parameters(**P), fast=fast)
+        ctx.cf_cols("columnfile with xc,yc titles .updateGV(fast=%s)" % fast, cf, names=("xc", "yc"), only_g=True, views=2)
+        ctx.hit("cfx_xc_yc")
+        # (b) one 2-D array behind the columns which already holds the nine geometry columns (as after reading a file
+        #     written by an earlier session): the update must overwrite every one of them, in the array too
+        titles = ["sc", "fc", "omega"] + list(GEOCOLS)
+        big = np.full((len(titles), n), 7.25)
+        big[0], big[1], big[2] = orc.sc, orc.fc, orc.omega
+        cf = CF.newcolumnfile(titles=list(titles))
+        cf.nrows = n
+        cf.set_bigarray(big)
+        _with_pars(ctx, cf, P)
+        cf.updateGeometry(fast=fast)
+        lab = "columnfile on a 2-D array pre-filled with old geometry columns .updateGeometry(fast=%s)" % fast
+        ctx.cf_cols(lab, cf, views=2)
+        ba = cf.bigarray
+        ctx.geometry_cols(lab + " [bigarray rows]", np.array([ba[3], ba[4], ba[5]]).T, ba[6], ba[7], ba[8],
+                          np.array([ba[9], ba[10], ba[11]]).T)
+        ctx.hit("cfx_array2d_prefilled")
+        # (c) a bare 2-D array (sc, fc, omega only): the new columns are appended
+        cf = CF.newcolumnfile(titles=["sc", "fc", "omega"])
+        cf.nrows = n
+        cf.set_bigarray(np.array([orc.sc, orc.fc, orc.omega]))
+        cf.updateGeometry(pars=rt.parameters.parameters(**P), fast=fast)          # (parameters through the pars= argument)
+        ctx.cf_cols("columnfile on a bare 2-D array .updateGeometry(fast=%s)" % fast, cf, views=2)
+        ctx.hit("cfx_array2d_bare")
+        # (d) updated with other parameters, copied; the copy is updated with these parameters
+        cf0 = _with_pars(ctx, ctx.colfile(), ctx.P0)
+        cf0.updateGeometry(fast=fast)
+        cf = cf0.copy()
+        _with_pars(ctx, cf, P)
+        cf.updateGeometry(fast=fast)
+        ctx.cf_cols("columnfile.copy() of an updated columnfile .updateGeometry(fast=%s)" % fast, cf, views=2)
+        ctx.hit("cfx_copy")
+        # (e) ... filtered with an all-true mask, then updated
+        cf0.filter(np.ones(n, bool))
+        _with_pars(ctx, cf0, P)
+        cf0.updateGeometry(fast=fast)
+        ctx.cf_cols("columnfile.filter(all true) of an updated columnfile .updateGeometry(fast=%s)" % fast, cf0, views=2)
+        ctx.hit("cfx_filter")
+        # (f) ... looked at as one array (get_bigarray) between two updates
+        cf = _with_pars(ctx, ctx.colfile(), ctx.P0)
+        cf.updateGeometry(fast=fast)
+        cf.bigarray
+        _with_pars(ctx, cf, P)
+        cf.updateGeometry(fast=fast)
+        lab = "columnfile.bigarray taken between two updates .updateGeometry(fast=%s)" % fast
+        ctx.cf_cols(lab, cf, views=2)
+        ba = cf.bigarray
+        ix = [cf.titles.index(k) for k in GEOCOLS]
+        ctx.geometry_cols(lab + " [bigarray rows]", np.array([ba[ix[0]], ba[ix[1]], ba[ix[2]]]).T, ba[ix[3]], ba[ix[4]],
+                          ba[ix[5]], np.array([ba[ix[6]], ba[ix[7]], ba[ix[8]]]).T)
+        ctx.hit("cfx_bigarray_after_update")
+
+
+# ---- (4) numba point-by-point copies (no omegasign argument: callers pre-multiply) and get_local_gv
+def _sec_numba(ctx):
+    rt, orc, J, P, t = ctx.rt, ctx.orc, ctx.J, ctx.P, ctx.t
+    if rt.pbp is None:
+        return
+    pbp = rt.pbp
+    n = orc.n
+    sc, fc, om, oms = orc.sc, orc.fc, orc.omega, orc.oms
+    lam = P["wavelength"]
+    if ctx.typing is not None:
+        # the typed replay reaches the numba copies through three leaf functions in ONE type pattern each (every
+        # further pattern costs a compilation; compute_gve alone would re-specialise its whole call tree, ~10 s):
+        # compute_xyz_lab with the flips, centres, pixel sizes and the distance as ints (tilts as floats),
+        # compute_grain_origins and compute_g_vectors with wedge, chi and the translation as ints (batches whose wedge or
+        # chi is not integral are not sent there)
+        ints = ("o11", "o12", "o21", "o22", "y_center", "z_center", "y_size", "z_size", "distance")
+        if all(isinstance(P[k], int) for k in ints):
+            xyz = pbp.compute_xyz_lab(sc, fc, tilt_x=float(P["tilt_x"]), tilt_y=float(P["tilt_y"]), tilt_z=float(P["tilt_z"]),
+                                      **{k: P[k] for k in ints})
+            ctx.vec("point_by_point.compute_xyz_lab", xyz.T, orc.xyz)
+            ctx.hit("typed_numba")
+        ints = ("wedge", "chi", "t_x", "t_y", "t_z")
+        if all(isinstance(P[k], int) for k in ints):
+            go = pbp.compute_grain_origins(oms, P["wedge"], P["chi"], t[0], t[1], t[2])
+            ctx.vec("point_by_point.compute_grain_origins", go.T, orc.org)
+            e0 = np.where(np.isfinite(orc.eta), orc.eta, 0.0)
+            g = pbp.compute_g_vectors(orc.tth, e0, oms, float(lam), wedge=P["wedge"], chi=P["chi"])
+            ctx.vec("point_by_point.compute_g_vectors(oracle tth, eta)", g.T, orc.g)
+            ctx.hit("typed_numba")
+        return
+    det = dict(y_center=P["y_center"], y_size=P["y_size"], tilt_y=P["tilt_y"], z_center=P["z_center"],
+               z_size=P["z_size"], tilt_z=P["tilt_z"], tilt_x=P["tilt_x"], distance=P["distance"],
+               o11=P["o11"], o12=P["o12"], o21=P["o21"], o22=P["o22"])
+    xyz = pbp.compute_xyz_lab(sc, fc, **det)
+    ctx.vec("point_by_point.compute_xyz_lab", xyz.T, orc.xyz)
+    go = pbp.compute_grain_origins(oms, P["wedge"], P["chi"], t[0], t[1], t[2])
+    ctx.vec("point_by_point.compute_grain_origins", go.T, orc.org)
+    tth, eta = pbp.compute_tth_eta(sc, fc, oms, t_x=t[0], t_y=t[1], t_z=t[2], wedge=P["wedge"], chi=P["chi"], **det)
+    ctx.ang("point_by_point.compute_tth_eta tth", tth, orc.tth, modulo=False)
+    ctx.ang("point_by_point.compute_tth_eta eta", eta, orc.eta)
+    tth3, eta3 = pbp.compute_tth_eta_from_xyz(xyz, oms, t_x=t[0], t_y=t[1], t_z=t[2], wedge=P["wedge"], chi=P["chi"])
+    ctx.ang("point_by_point.compute_tth_eta_from_xyz tth", tth3, orc.tth, modulo=False)
+    ctx.ang("point_by_point.compute_tth_eta_from_xyz eta", eta3, orc.eta)
+    k = pbp.compute_k_vectors(tth, eta, lam)
+    ctx.vec("point_by_point.compute_k_vectors", k.T, orc.k)
+    g = pbp.compute_g_vectors(tth, eta, oms, lam, wedge=P["wedge"], chi=P["chi"])
+    ctx.vec("point_by_point.compute_g_vectors", g.T, orc.g)
+
+    def gve(xpos, distance):
+        return pbp.compute_gve(sc, fc, oms, xpos, distance, P["y_center"], P["y_size"], P["tilt_y"], P["z_center"],
+                               P["z_size"], P["tilt_z"], P["tilt_x"], P["o11"], P["o12"], P["o21"], P["o22"],
+                               t[0], t[1], t[2], P["wedge"], P["chi"], lam).T
+    for x0 in (0.0, 2.5):
+        ctx.vec("point_by_point.compute_gve(xpos=%g)" % x0, gve(np.full(n, x0), P["distance"] + x0), orc.g)
+    # one xpos per peak (as the refinement passes it): row i is computed at distance - xpos[i]
+    xvals = [F(a - 2) * F(5, 4) + b * F(3, 8) for b in (0, 1) for a in range(5)]       # -5/2 .. 5/2 (+ 3/8), incl. 0
+    ii = np.arange(n)
+    xwhich = (ii * 7) % 5 + 5 * (ii % 3 == 1)
+    eg, okx = shifted_g(orc, xvals, xwhich, use_origin=True)
+    keep = J.ok
+    J.ok = okx
+    ctx.vec("point_by_point.compute_gve(one xpos per peak)", gve(np.array([float(x) for x in xvals])[xwhich], P["distance"]), eg)
+    J.ok = keep
+    ctx.hit("gve_per_row_xpos_rows", int(okx.sum()))
+    # get_local_gv: origin moved along x by sx cos(omega) - sy sin(omega), t = 0, then cImageD11.compute_gv
+    m = len(orc.recs)
+    angs = [r["par"]["omega"] for r in orc.recs]
+    rec_of_row = np.arange(n) % m
+    cs = np.array([a[0] / float(a[2]) for a in angs])[rec_of_row]
+    sn = np.array([a[1] / float(a[2]) for a in angs])[rec_of_row]
+    for si, sj, ystep in LOCAL_GRIDS[:ctx.grids]:
+        sx, sy = F(si) * ystep, -F(sj) * ystep
+        eg, okl = shifted_g(orc, [sx * F(a[0], a[2]) - sy * F(a[1], a[2]) for a in angs], rec_of_row, use_origin=False)
         old = pbp.parglobal
         try:
             pbp.parglobal = rt.parameters.parameters(**P)
-            gv, gx, gy, gz = pbp.get_local_gv(si, sj, ystep, om, sn, cs, orc.xyz[:, 0].copy(), orc.xyz[:, 1].copy(),
+            gv, gx, gy, gz = pbp.get_local_gv(si, sj, float(ystep), om, sn, cs, orc.xyz[:, 0].copy(), orc.xyz[:, 1].copy(),
                                               orc.xyz[:, 2].copy())
         finally:
             pbp.parglobal = old
         keep = J.ok
         J.ok = okl
-        J.vec("point_by_point.get_local_gv", gv, eg)
-        J.vec("point_by_point.get_local_gv (gx,gy,gz)", np.array([gx, gy, gz]).T, eg)
+        lab = "point_by_point.get_local_gv(si=%d, sj=%d, ystep=%g)" % (si, sj, float(ystep))
+        ctx.vec(lab, gv, eg)
+        ctx.vec(lab + " (gx,gy,gz)", np.array([gx, gy, gz]).T, eg)
+        J.ok = keep
+        ctx.hit("local_gv_grids")
+
+
+# ---- (5) refinegrains.compute_gv
+def _sec_rg(ctx):
+    rt, orc, P = ctx.rt, ctx.orc, ctx.P
+    n = orc.n
+    for rg, lab in ((rt.rg_plain, "refinegrains.compute_gv(OmFloat=False)"),
+                    (rt.rg_float, "refinegrains.compute_gv(OmFloat=True, OmSlop=0)")):
+        rg.parameterobj = rt.parameters.parameters(**P)
+        gr = _Grain()
+        gr.peaks_xyz = np.ascontiguousarray(orc.xyz)
+        gr.om = orc.omega
+        gr.omega_calc = np.zeros(n)
+        gr.ubi = np.eye(3) * 3.0
+        gr.name = "0:0"
+        rg.tolerance = 0.05
+        with contextlib.redirect_stdout(io.StringIO()), np.errstate(invalid="ignore", divide="ignore"):
+            rg.compute_gv(gr)
+        ctx.vec(lab + " gv", rg.gv, orc.g)
+        ctx.ang(lab + " tth", rg.tth, orc.tth, modulo=False)
+        ctx.ang(lab + " eta", rg.eta, orc.eta)
+
+
+# ---- (6) refinegrains.assignlabels: the peak-to-grain assignment calls cImageD11.compute_gv once per grain with that
+#          grain's translation, into ONE g-vector buffer, with its own packing of the peak positions and parameters
+def _sec_al(ctx):
+    rt, orc, J, P, t = ctx.rt, ctx.orc, ctx.J, ctx.P, ctx.t
+    n = orc.n
+    other = (ctx.P0["t_x"], ctx.P0["t_y"], ctx.P0["t_z"])
+    for order in ctx.orders:
+        rg = rt.rg_plain
+        PP = dict(P)
+        PP["t_x"], PP["t_y"], PP["t_z"] = 11.0, -13.0, 17.0          # a third translation: the grains' own must be used
+        rg.parameterobj = rt.parameters.parameters(**PP)
+        cf = rt.columnfile.colfile_from_dict({"sc": orc.sc.copy(), "fc": orc.fc.copy(), "omega": orc.omega.copy(),
+                                              "drlv2": np.ones(n), "labels": np.full(n, -1.0)})
+        rg.scannames, rg.scantitles, rg.scandata = ["scan"], {"scan": list(cf.titles)}, {"scan": cf}
+        rg.grainnames = [0, 1]
+        mine = 1 if order == "last" else 0
+        rg.grains = {}
+        for gi in (0, 1):
+            # the grain at this batch's translation indexes everything (h = ubi.g ~ 0), the other one next to nothing
+            gr = rt.grain.grain(np.eye(3) * (1e-9 if gi == mine else 2.9), translation=(t if gi == mine else other))
+            gr.name = "%d:scan" % gi
+            rg.grains[(gi, "scan")] = gr
+        rg.tolerance = 0.05
+        with contextlib.redirect_stdout(io.StringIO()), np.errstate(invalid="ignore", divide="ignore"):
+            rg.assignlabels(quiet=True)
+        lab = "refinegrains.assignlabels (this batch's grain %s of two)" % order
+        for col, name in (("sc", "sc"), ("fc", "fc"), ("omega", "omega")):
+            ctx.hit("inputs_intact_checks")
+            if not ctx.same_bits(np.asarray(getattr(cf, col), float), name):
+                J.problems.append("%s%s changed the input column %s" % (lab, ctx.tag, col))
+        if order == "last":
+            # the buffer was filled for the other grain first: every row must have been overwritten
+            ctx.vec(lab + " .gv", rg.gv, orc.g)
+            ctx.vec(lab + " gx,gy,gz columns", np.array([cf.gx, cf.gy, cf.gz]).T, orc.g)
+            ctx.hit("assignlabels_gv_rows", int(J.ok.sum()))
+        # per-grain angles of the peaks given to this batch's grain (stored as float32 by assignlabels)
+        sel = np.asarray(cf.labels) == mine
+        keep = J.ok
+        J.ok = keep & sel
+        ctx.ang(lab + " tth_per_grain", cf.tth_per_grain, orc.tth, modulo=False, extra=5e-5)
+        ctx.ang(lab + " eta_per_grain", cf.eta_per_grain, orc.eta, extra=5e-5)
+        ctx.hit("assignlabels_per_grain_rows", int(J.ok.sum()))
         J.ok = keep
 
-    # ---- (5) refinegrains.compute_gv
-    if "rg" in routes:
-        for rg, lab in ((rt.rg_plain, "refinegrains.compute_gv(OmFloat=False)"),
-                        (rt.rg_float, "refinegrains.compute_gv(OmFloat=True, OmSlop=0)")):
-            rg.parameterobj = rt.parameters.parameters(**P)
-            gr = _Grain()
-            gr.peaks_xyz = np.ascontiguousarray(orc.xyz)
-            gr.om = om.copy()
-            gr.omega_calc = np.zeros(n)
-            gr.ubi = np.eye(3) * 3.0
-            gr.name = "0:0"
-            rg.tolerance = 0.05
-            with contextlib.redirect_stdout(io.StringIO()), np.errstate(invalid="ignore", divide="ignore"):
-                rg.compute_gv(gr)
-            J.vec(lab + " gv", rg.gv, orc.g)
-            J.ang(lab + " tth", rg.tth, orc.tth, modulo=False)
-            J.ang(lab + " eta", rg.eta, orc.eta)
+
+SECTIONS = (("py", _sec_py), ("c", _sec_c), ("ct", _sec_ct), ("cf", _sec_cf), ("cfx", _sec_cfx), ("numba", _sec_numba),
+            ("rg", _sec_rg), ("al", _sec_al))
+
+
+def judge_fwd(rt, orc, routes=ALL_ROUTES, typing=None, count=None):
+    """run one batch through the implementation routes; returns the Judge (problems, worst ratio, comparisons).
+    typing = None: parameters are Python floats; "int" / "str": see typed_pars.  count: dictionary of vacuity counters"""
+    J = Judge(orc.ok)
+    P = orc.P
+    if typing is not None:
+        P, problem = typed_pars(rt, orc.P, typing)
+        if problem:
+            J.problems.append(problem)
+    ctx = _Ctx(rt, orc, J, P, typing, count, parfile=("cf_file" in routes))
+    ctx.histories = "cf_nohist" not in routes
+    if "numba_1grid" in routes:
+        ctx.grids = 1
+    if "al_last" in routes or "al_first" in routes:
+        ctx.orders = tuple(o for o in ("last", "first") if "al_" + o in routes)
+    if typing is not None:
+        ctx.hit("typed_batches")
+    for name, fn in SECTIONS:
+        if name not in routes:
+            continue
+        try:
+            fn(ctx)
+        except common.MachineryError:
+            raise
+        except Exception as e:                      # a route that raises is a disagreement, not a machinery error
+            J.problems.append("route family '%s'%s raised %s: %s" % (name, ctx.tag, type(e).__name__, str(e)[:300]))
+        ctx.inputs_intact("route family '%s'" % name)
     return J
 
 
@@ -546,7 +907,91 @@ def rotz(deg, v):
     return np.array([c * v[:, 0] - s * v[:, 1], s * v[:, 0] + c * v[:, 1], v[:, 2]]).T
 
 
-def judge_laws(rt, orc, rng, perturb=None):
+def roundtrip_uncompute(rt, J, label, gv, oms, orc, lam, wedge, chi, shift=0.0):
+    """gv (n,3) computed by a forward route for the signed omegas `oms` of a t = 0 batch -> uncompute_g_vectors.
+    Rows where the two solutions (nearly) coincide, g = 0 or eta is undefined are skipped.  returns rows judged"""
+    n = orc.n
+    cw, sw = math.cos(math.radians(wedge)), math.sin(math.radians(wedge))
+    cc, sc = math.cos(math.radians(chi)), math.sin(math.radians(chi))
+    rx, ry, rz = cw, -sw * sc, -sw * cc                   # first row of WI.CI = Ry(-wedge).Rx(chi)
+    gam = lam * gv
+    ab2 = (rx * rx + ry * ry) * (gam[:, 0] ** 2 + gam[:, 1] ** 2)
+    cq = -(gam ** 2).sum(axis=1) / 2 - rz * gam[:, 2]
+    with np.errstate(invalid="ignore", divide="ignore"):
+        margin = np.where(ab2 > 1e-12, 1.0 - cq * cq / ab2, 0.0)
+        s = np.sqrt((gam ** 2).sum(axis=1)) / 2
+    sel = J.ok & np.isfinite(orc.eta) & (margin > 1e-6) & (s > 1e-9) & (s < 1 - 1e-9)
+    if not sel.any():
+        return 0
+    with np.errstate(invalid="ignore", divide="ignore"):
+        tth, (eta1, eta2), (o1, o2) = rt.transform.uncompute_g_vectors(np.ascontiguousarray(gv.T), lam, wedge=wedge, chi=chi)
+    cond = 1.0 / np.sqrt(np.maximum(margin, 1e-12))
+    keep = J.ok
+    J.ok = sel
+    J.ang("uncompute_g_vectors(g from %s) tth" % label, tth, orc.tth + shift, modulo=False,
+          extra=ANGTOL * (1.0 / np.sqrt(np.maximum(1 - np.minimum(s, 1.0) ** 2, 1e-12))))
+    J.ok = keep
+    tol = ANGTOL * 10 * cond
+    d = lambda a, b: np.abs((a - b + 180.0) % 360.0 - 180.0)
+    with np.errstate(invalid="ignore"):
+        hit1 = (d(o1, oms) <= tol) & (d(eta1, orc.eta) <= tol)
+        hit2 = (d(o2, oms) <= tol) & (d(eta2, orc.eta) <= tol)
+    bad = sel & ~(hit1 | hit2)
+    J.ncmp += int(sel.sum())
+    if bad.any():
+        i = int(np.argmax(bad))
+        J.problems.append("uncompute_g_vectors(g from %s): neither (omega, eta) = (%r, %r), (%r, %r) is the peak's (%r, %r); "
+                          "g = %s" % (label, o1[i], eta1[i], o2[i], eta2[i], float(oms[i]), float(orc.eta[i]), gv[i].tolist()))
+    return int(sel.sum())
+
+
+def judge_internal(rt, orc):
+    """route-internal laws that hold for every batch, whatever the grain translation:
+    ds = 2 sin(tth/2)/lambda = |g| on the columns of columnfile fast / slow, Ctransform.xyz2geometry, the raw
+    compute_geometry kernel and refinegrains.compute_gv (tth, gv)"""
+    J = Judge(orc.ok)
+    P = orc.P
+    n = orc.n
+    lam = P["wavelength"]
+    t = (P["t_x"], P["t_y"], P["t_z"])
+
+    def law(label, tth, ds, g):
+        bragg = 2 * np.sin(np.radians(np.asarray(tth, float)) / 2) / lam
+        modg = np.sqrt((np.asarray(g, float) ** 2).sum(axis=1))
+        if ds is not None:
+            J.vec("%s: ds = 2 sin(tth/2)/lambda" % label, ds, bragg)
+            J.vec("%s: |g| = ds" % label, modg, ds)
+        else:
+            J.vec("%s: |g| = 2 sin(tth/2)/lambda" % label, modg, bragg)
+    for fast in (True, False):
+        cf = rt.columnfile.colfile_from_dict({"sc": orc.sc.copy(), "fc": orc.fc.copy(), "omega": orc.omega.copy()})
+        cf.parameters = rt.parameters.parameters(**P)
+        cf.updateGeometry(fast=fast)
+        law("columnfile.updateGeometry(fast=%s)" % fast, cf.tth, cf.ds, np.array([cf.gx, cf.gy, cf.gz]).T)
+    ct = rt.transform.Ctransform(P)
+    xyz = ct.sf2xyz(orc.sc, orc.fc)
+    geo = ct.xyz2geometry(xyz, orc.omega, t[0], t[1], t[2])
+    law("Ctransform.xyz2geometry", geo[:, 0], geo[:, 2], geo[:, 3:6])
+    geo = np.zeros((n, 6))
+    rt.c.compute_geometry(np.ascontiguousarray(orc.xyz), orc.omega, P["omegasign"], lam, P["wedge"], P["chi"], np.array(t), geo)
+    law("cImageD11.compute_geometry", geo[:, 0], geo[:, 2], geo[:, 3:6])
+    for rg, lab in ((rt.rg_plain, "refinegrains.compute_gv(OmFloat=False)"),
+                    (rt.rg_float, "refinegrains.compute_gv(OmFloat=True, OmSlop=0)")):
+        rg.parameterobj = rt.parameters.parameters(**P)
+        gr = _Grain()
+        gr.peaks_xyz = np.ascontiguousarray(orc.xyz)
+        gr.om = orc.omega.copy()
+        gr.omega_calc = np.zeros(n)
+        gr.ubi = np.eye(3) * 3.0
+        gr.name = "0:0"
+        rg.tolerance = 0.05
+        with contextlib.redirect_stdout(io.StringIO()), np.errstate(invalid="ignore", divide="ignore"):
+            rg.compute_gv(gr)
+        law(lab, rg.tth, None, rg.gv)
+    return J
+
+
+def judge_laws(rt, orc, rng, perturb=None, stats=None):
     """for a batch with t = 0: |g| = 2 sin(theta)/lambda = oracle ds, independent of omega, wedge, chi, omegasign;
     g(omega2) = Rz(-(omega2-omega1)*sign) g(omega1).  Siblings use arbitrary (not rational-trig) angles too."""
     J = Judge(orc.ok)
@@ -591,6 +1036,11 @@ def judge_laws(rt, orc, rng, perturb=None):
         if rt.pbp is not None:
             gn = rt.pbp.compute_g_vectors(tth_c, eta_c, om1 * sg, lam, wedge=w, chi=c).T
             J.vec("|g| from point_by_point.compute_g_vectors %s" % tag, np.sqrt((gn * gn).sum(axis=1)), bragg)
+            gn2 = rt.pbp.compute_g_vectors(tth_c, eta_c, om2 * sg, lam, wedge=w, chi=c).T
+            J.vec("|g| from point_by_point.compute_g_vectors omega2 %s" % tag, np.sqrt((gn2 * gn2).sum(axis=1)), bragg)
+            J.vec("omega law (numba): g(omega2) = Rz(-(omega2-omega1) sign) g(omega1) %s" % tag, gn2, rotz(-dom * sg, gn))
+            if stats is not None:
+                stats["numba_law_rows"] = stats.get("numba_law_rows", 0) + 2 * int(J.ok.sum())
         # the packed fast path and the columnfile g-vector route obey the same two laws
         PV = dict(P, wedge=w, chi=c, omegasign=sg, t_x=0.0, t_y=0.0, t_z=0.0)
         ct = tr.Ctransform(PV)
@@ -608,6 +1058,17 @@ def judge_laws(rt, orc, rng, perturb=None):
             if which == "omega2":
                 J.vec("omega law (%s): g(omega2) = Rz(-(omega2-omega1) sign) g(omega1) %s" % (name, tag), gv,
                       rotz(-dom * sg, res[(name, "omega1")]))
+        # code-level round trip: the g-vectors of the real forward routes, at this wedge / chi / omega sign (rational and
+        # arbitrary), go back through uncompute_g_vectors: one of the two solutions must be (omega * sign, eta) of the
+        # peak, tth the peak's two-theta
+        for name in ("sf2gv", "columnfile.updateGV(fast=True)", "columnfile.updateGV(fast=False)"):
+            for which, omv in (("omega1", om1), ("omega2", om2)):
+                k = roundtrip_uncompute(rt, J, "%s %s %s" % (name, which, tag), res[(name, which)], omv * sg, orc, lam, w, c,
+                                        shift=(1e-4 if perturb == "roundtrip" else 0.0))
+                if stats is not None:
+                    stats["roundtrip_rows"] = stats.get("roundtrip_rows", 0) + k
+                    if sg < 0:
+                        stats["roundtrip_rows_negative_sign"] = stats.get("roundtrip_rows_negative_sign", 0) + k
     # columnfile columns: ds = 2 sin(tth/2)/lambda = |g|
     for fast in (True, False):
         cf = rt.columnfile.colfile_from_dict({"sc": sc.copy(), "fc": fc.copy(), "omega": om1.copy()})
@@ -622,7 +1083,7 @@ def judge_laws(rt, orc, rng, perturb=None):
 # ------------------------------------------------------------------------------------------------
 # C02 (iii): projection onto the detector and back
 
-def judge_project(rt, orc, perturb=None):
+def judge_project(rt, orc, perturb=None, stats=None):
     J = Judge(orc.ok)
     P = orc.P
     tr = rt.transform
@@ -650,6 +1111,25 @@ def judge_project(rt, orc, perturb=None):
                        abs(P["z_size"])) / np.maximum(absd * np.maximum(np.sin(np.radians(orc.tth)), 1e-3), 1e-300))
     J.ang("compute_tth_eta(compute_xyz_from_tth_eta) tth", tth2, orc.tth, modulo=False, extra=extra)
     J.ang("compute_tth_eta(compute_xyz_from_tth_eta) eta", eta2, orc.eta, extra=extra)
+    # edge arm: the same ray alone (a batch of one row) lands on the same pixel
+    i0 = int(np.nonzero(sel)[0][-1])
+    with np.errstate(invalid="ignore", divide="ignore"):
+        f1, s1 = tr.compute_xyz_from_tth_eta(orc.tth[i0:i0 + 1], eta[i0:i0 + 1], orc.oms[i0:i0 + 1], t_x=P["t_x"], t_y=P["t_y"],
+                                             t_z=P["t_z"], wedge=P["wedge"], chi=P["chi"], **det)
+    one = np.zeros(orc.n, bool)
+    one[i0] = True
+    J.ok = one
+    J.vec("compute_xyz_from_tth_eta (one-row batch) slow pixel", np.where(one, s1[0], 0.0), esc, widen=widen)
+    J.vec("compute_xyz_from_tth_eta (one-row batch) fast pixel", np.where(one, f1[0], 0.0), orc.fc, widen=widen)
+    J.ok = sel
+    if stats is not None:
+        stats["projection_single_row_calls"] = stats.get("projection_single_row_calls", 0) + 1
+        inplane = orc.ok & ~sel
+        if inplane.any():
+            # rays in the detector plane share the batch with ordinary ones: the ordinary rows were judged above
+            stats["projection_mixed_batches"] = stats.get("projection_mixed_batches", 0) + 1
+            stats["projection_inplane_rows_masked_to_0_0"] = stats.get("projection_inplane_rows_masked_to_0_0", 0) + int(
+                (inplane & (np.asarray(fc) == 0) & (np.asarray(sc) == 0)).sum())
     return J, int(sel.sum())
 
 
@@ -668,6 +1148,19 @@ def forward_model(tth, eta, omega, wedge_a, chi_a, lam):
     k2 = np.array([k1[0], cc * k1[1] + sc * k1[2], -sc * k1[1] + cc * k1[2]])     # Rx(-chi)
     co, so = np.cos(o), np.sin(o)
     return np.array([co * k2[0] + so * k2[1], -so * k2[0] + co * k2[1], k2[2]]).T  # Rz(-omega)
+
+
+def _rot(axis, c, s):
+    if axis == "x":
+        return np.array([[1, 0, 0], [0, c, -s], [0, s, c]], float)
+    if axis == "y":
+        return np.array([[c, 0, s], [0, 1, 0], [-s, 0, c]], float)
+    return np.array([[c, -s, 0], [s, c, 0], [0, 0, 1]], float)
+
+
+# exact rotations handed to g_to_k as `pre`: a quarter turn, a product of right-angle turns, a Pythagorean turn
+PRE_ARMS = (("Rx(90)", _rot("x", 0.0, 1.0)), ("Ry(-90).Rz(180)", _rot("y", 0.0, -1.0).dot(_rot("z", -1.0, 0.0))),
+            ("Rz(atan2(-4,3)).Rx(atan2(5,12))", _rot("z", 0.6, -0.8).dot(_rot("x", 12 / 13., 5 / 13.))))
 
 
 def inverse_key(r):
@@ -727,6 +1220,30 @@ def judge_inverse(rt, recs, perturb=None):
     for i in np.nonzero(judge_flag & (v != valid))[0][:3]:
         J.problems.append("g_to_k valid flag %s, exact Ewald inequality says %s for g = %s (lambda %g wedge %g chi %g)" % (
             bool(v[i]), bool(valid[i]), g[:, i].tolist(), lam, wedge, chi))
+    # the pre arm and the default axis of g_to_k (the model is covariant: harness-only family).  g_to_k applies `pre` to
+    # g, so handing it A^T g together with pre = A (A an exact rotation) must give the same flags and the same two
+    # solutions; about +z (the default axis) the same vectors diffract at the opposite angles
+    cond0 = 1.0 / np.sqrt(np.maximum(margin, 1e-12))
+    arms = []
+    for name, A in PRE_ARMS:
+        arms.append(("g_to_k(A^T g, axis=-z, pre=A: %s, post)" % name, np.dot(A.T, g), dict(axis=[0, 0, -1], pre=A, post=post), 1.0))
+    arms.append(("g_to_k(g, default axis +z, pre=None, post)", g, dict(pre=None, post=post), -1.0))
+    arms.append(("g_to_k(g, axis=+z, pre=identity, post)", g, dict(axis=np.array([0, 0, 1.0]), pre=np.eye(3), post=post), -1.0))
+    for lab, gin, kw, sign in arms:
+        with np.errstate(invalid="ignore", divide="ignore"):
+            a1, a2, va = rt.gv_general.g_to_k(gin, lam, **kw)
+        va = np.asarray(va, bool)
+        stats["pre_axis_arm_rows"] = stats.get("pre_axis_arm_rows", 0) + int(judge_flag.sum())
+        for i in np.nonzero(judge_flag & (va != valid))[0][:2]:
+            J.problems.append("%s valid flag %s, exact Ewald inequality says %s for g = %s (lambda %g wedge %g chi %g)" % (
+                lab, bool(va[i]), bool(valid[i]), g[:, i].tolist(), lam, wedge, chi))
+        both = judge_flag & valid & v & va
+        d = lambda x, y: np.abs((x - y + 180.0) % 360.0 - 180.0)
+        tol = ANGTOL * 10 * cond0
+        bad = both & ~((d(sign * a1, o1) <= tol) & (d(sign * a2, o2) <= tol)) & ~((d(sign * a1, o2) <= tol) & (d(sign * a2, o1) <= tol))
+        for i in np.nonzero(bad)[0][:2]:
+            J.problems.append("%s gives the angles (%r, %r), the plain call (%r, %r) for g = %s (lambda %g wedge %g chi %g)" % (
+                lab, a1[i], a2[i], o1[i], o2[i], g[:, i].tolist(), lam, wedge, chi))
     inval = judge_flag & ~valid
     for name, arr in (("tth", tth), ("eta1", eta1), ("eta2", eta2), ("omega1", om1), ("omega2", om2)):
         # "flagged, not given angles": the masked value is 0; for |g| > 2/lambda the code's arcsin yields NaN for tth,
@@ -773,4 +1290,169 @@ def judge_inverse(rt, recs, perturb=None):
                 J.problems.append("neither solution (omega, eta) = (%r, %r), (%r, %r) is the generating (%r, %r) for g = %s "
                                   "(lambda %g wedge %g chi %g)" % (om1[i], eta1[i], om2[i], eta2[i], og, eg,
                                                                    g[:, i].tolist(), lam, wedge, chi))
+    return J, stats
+
+
+# ------------------------------------------------------------------------------------------------
+# C02 (iv): the conventions of gv_general (rotation_axis, k_to_g, g_to_k with pre / post) on the SpecAx records
+
+AX_ACTIONS = ("RotateAx",)
+
+
+def _sv(sv):
+    return np.array(sv[0], float) / float(sv[1])
+
+
+def exact_chiwedge(par):
+    """chiwedge = chimat(chi) . wedgemat(wedge) = Rx(-chi) . Ry(wedge) from the exact sines and cosines (the harness's own
+    transcription of the documented stack g = omega . chi . wedge . k); wedgechi = wedgemat . chimat likewise"""
+    cw, sw = par["wedge"][0] / float(par["wedge"][2]), par["wedge"][1] / float(par["wedge"][2])
+    cc, sc = par["chi"][0] / float(par["chi"][2]), par["chi"][1] / float(par["chi"][2])
+    W = np.array([[cw, 0, sw], [0, 1, 0], [-sw, 0, cw]])
+    C = np.array([[1, 0, 0], [0, cc, sc], [0, -sc, cc]])
+    return W, C
+
+
+def axis_key(r):
+    p = r["par"]
+    return json.dumps([r["ai"], r["pi"], p["wedge"], p["chi"], p["wl"]])
+
+
+def _mat_problem(J, label, got, exp, tol=1e-12):
+    got = np.asarray(got, float)
+    exp = np.asarray(exp, float)
+    J.ncmp += 1
+    if got.shape != exp.shape or not (np.abs(got - exp) <= tol + REL * np.abs(exp).max()).all():
+        J.problems.append("%s: got %s expected %s" % (label, got.tolist(), exp.tolist()))
+
+
+def judge_axis(rt, recs, perturb=None):
+    """one batch of SpecAx records sharing axis, pre-rotation, wedge, chi, wavelength; rows = rotation angle x k-vector.
+    returns (Judge, statistics)"""
+    gg = rt.gv_general
+    n = len(recs)
+    r0 = recs[0]
+    p0 = r0["par"]
+    lam = p0["wl"][0] / float(p0["wl"][1])
+    wedge, chi = ang_deg(p0["wedge"]), ang_deg(p0["chi"])
+    ax = _sv(r0["axis"])
+    pre = _sv(r0["pre"])
+    ident_pre = r0["pi"] == 1
+    flat = (p0["wedge"] == [1, 0, 1] and p0["chi"] == [1, 0, 1])
+    W, C = exact_chiwedge(p0)
+    post = C.dot(W)
+    stats = {"rows": n, "k_to_g": 0, "rotate_vectors": 0, "matrix_arm": 0, "axis_from_matrix": 0, "g_to_k_pre_post": 0,
+             "g_to_k_default_axis": 0, "g_to_k_skipped_conditioning": 0, "half_turns_not_representable": 0,
+             "oblique_axis_g_to_k_misses": 0, "oblique_axis_g_to_k_rows": 0}
+    J = Judge(np.ones(n, bool))
+    tag = " [axis %s pre #%d wedge %g chi %g]" % (r0["axis"][0], r0["pi"], wedge, chi)
+    # the wedge / chi matrices of gv_general against the exact ones
+    _mat_problem(J, "gv_general.wedgemat(%g)" % wedge, gg.wedgemat(wedge), W)
+    _mat_problem(J, "gv_general.chimat(%g)" % chi, gg.chimat(chi), C)
+    _mat_problem(J, "gv_general.chiwedge(chi=%g, wedge=%g)" % (chi, wedge), gg.chiwedge(chi=chi, wedge=wedge), C.dot(W))
+    _mat_problem(J, "gv_general.wedgechi(wedge=%g, chi=%g)" % (wedge, chi), gg.wedgechi(wedge=wedge, chi=chi), W.dot(C))
+    angles = np.array([ang_deg(r["par"]["omega"]) for r in recs])
+    k = np.array([_sv(r["lk"]) for r in recs]).T / lam
+    pk = np.array([_sv(r["pk"]) for r in recs]).T / lam
+    rpk = np.array([_sv(r["rpk"]) for r in recs]).T / lam
+    g = np.array([_sv(r["g"]) for r in recs]).T / lam
+    if perturb == "g":
+        g = g * (1 + 1e-7)
+    # ---- k_to_g : g = pre . rot(axis, angle) . post . k   (docstring), every None / matrix arm
+    calls = [("k_to_g(axis, pre, post)", dict(axis=ax, pre=pre, post=post))]
+    if ident_pre:
+        calls.append(("k_to_g(axis, pre=None, post)", dict(axis=ax, pre=None, post=post)))
+    if flat:
+        calls.append(("k_to_g(axis, pre, post=None)", dict(axis=ax, pre=pre, post=None)))
+    if r0["ai"] == 1:
+        calls.append(("k_to_g(default axis, pre, post)", dict(pre=pre, post=post)))
+    calls.append(("k_to_g(axis as a list, pre, post = gv_general.chiwedge)", dict(axis=ax.tolist(), pre=pre,
+                                                                               post=gg.chiwedge(chi=chi, wedge=wedge))))
+    for lab, kw in calls:
+        J.vec("gv_general." + lab + tag, gg.k_to_g(k.copy(), angles.copy(), **kw).T, g.T)
+        stats["k_to_g"] += n
+    # ---- rotation_axis: per-vector angles, and the matrix arm (angles=None) per distinct angle
+    o0 = gg.rotation_axis(ax)
+    J.vec("rotation_axis.rotate_vectors(vectors, angles)" + tag, o0.rotate_vectors(pk.copy(), angles.copy()).T, rpk.T)
+    J.vec("rotation_axis.rotate_vectors_inverse(vectors, angles)" + tag,
+          o0.rotate_vectors_inverse(rpk.copy(), angles.copy()).T, pk.T)
+    stats["rotate_vectors"] += 2 * n
+    seen = {}
+    for i, r in enumerate(recs):
+        seen.setdefault(json.dumps(r["par"]["omega"]), []).append(i)
+    keep = J.ok
+    for key, rows in seen.items():
+        r = recs[rows[0]]
+        a = angles[rows[0]]
+        R, Ri = _sv(r["R"]), _sv(r["Rinv"])
+        o = gg.rotation_axis(ax, a)
+        _mat_problem(J, "rotation_axis(axis, %g).matrix%s" % (a, tag), o.matrix, R)
+        _mat_problem(J, "rotation_axis(axis, %g).to_matrix()%s" % (a, tag), o.to_matrix(), R)
+        _mat_problem(J, "rotation_axis(axis, %g).inversematrix%s" % (a, tag), o.inversematrix, Ri)
+        sel = np.zeros(n, bool)
+        sel[rows] = True
+        J.ok = sel
+        full = np.zeros((3, n))
+        full[:, rows] = o.rotate_vectors(pk[:, rows].copy())
+        J.vec("rotation_axis(axis, %g).rotate_vectors(vectors) [matrix arm]%s" % (a, tag), full.T, rpk.T)
+        full = np.zeros((3, n))
+        full[:, rows] = o.rotate_vectors_inverse(rpk[:, rows].copy())
+        J.vec("rotation_axis(axis, %g).rotate_vectors_inverse(vectors) [matrix arm]%s" % (a, tag), full.T, pk.T)
+        stats["matrix_arm"] += 2 * len(rows)
+        # axis_from_matrix: half turns have no antisymmetric part (the direction is 0/0): not representable, not judged
+        if r["par"]["omega"][:2] == [-1, 0]:
+            stats["half_turns_not_representable"] += 1
+        else:
+            try:
+                with contextlib.redirect_stdout(io.StringIO()):
+                    om = gg.axis_from_matrix(R)
+                _mat_problem(J, "axis_from_matrix(R(axis, %g)).matrix%s" % (a, tag), om.matrix, R, tol=1e-9)
+                stats["axis_from_matrix"] += 1
+            except Exception as e:
+                J.problems.append("axis_from_matrix(R(axis, %g))%s raised %s" % (a, tag, str(e)[:200]))
+    J.ok = keep
+    # ---- g_to_k: the angle of rot(axis, angle) must be one of the two solutions, for axes perpendicular to the beam as
+    #      the pipeline uses them (+-z); pre of g_to_k is applied to g (so it is the inverse of the pre that built g);
+    #      post of g_to_k is wedgechi where k_to_g takes chiwedge
+    rx, ry, rz = _sv(r0["wc1"])
+    # a sin x + b cos x = c :  a^2 + b^2 = (rx^2 + ry^2)(gx^2 + gy^2),  c = -lambda |g|^2/2 - rz gz   (g before pre)
+    ab2 = (rx * rx + ry * ry) * (rpk[0] ** 2 + rpk[1] ** 2) * lam * lam
+    cc = -(lam * lam) * (rpk ** 2).sum(axis=0) / 2 - rz * rpk[2] * lam
+    with np.errstate(invalid="ignore", divide="ignore"):
+        margin = np.where(ab2 > 1e-12, 1.0 - cc * cc / ab2, 0.0)
+    if r0["ai"] in (1, 2):
+        okc = margin > 1e-6
+        stats["g_to_k_skipped_conditioning"] += int((~okc).sum())
+        cond = 1.0 / np.sqrt(np.maximum(margin, 1e-12))
+        gcalls = [("g_to_k(axis, pre, post)", dict(axis=ax, pre=pre.T, post=W.dot(C)))]
+        if ident_pre:
+            gcalls.append(("g_to_k(axis, pre=None, post)", dict(axis=ax, pre=None, post=W.dot(C))))
+        if flat:
+            gcalls.append(("g_to_k(axis, pre, post=None)", dict(axis=ax, pre=pre.T, post=None)))
+        if r0["ai"] == 1:
+            gcalls.append(("g_to_k(default axis, pre, post)", dict(pre=pre.T, post=W.dot(C))))
+        for lab, kw in gcalls:
+            with np.errstate(invalid="ignore", divide="ignore"):
+                s1, s2, v = gg.g_to_k(g.copy(), lam, **kw)
+            v = np.asarray(v, bool)
+            for i in np.nonzero(okc)[0]:
+                d1 = abs((s1[i] - angles[i] + 180.0) % 360.0 - 180.0)
+                d2 = abs((s2[i] - angles[i] + 180.0) % 360.0 - 180.0)
+                J.ncmp += 1
+                if not v[i]:
+                    J.problems.append("gv_general.%s%s flags invalid a g-vector built to diffract at angle %r: g = %s" % (
+                        lab, tag, angles[i], g[:, i].tolist()))
+                elif not min(d1, d2) <= ANGTOL * 10 * cond[i]:
+                    J.problems.append("gv_general.%s%s: neither solution %r, %r is the generating angle %r for g = %s" % (
+                        lab, tag, s1[i], s2[i], angles[i], g[:, i].tolist()))
+            stats["g_to_k_default_axis" if "default" in lab else "g_to_k_pre_post"] += int(okc.sum())
+    else:
+        # observation only (outside the property's quantifier: the rotation axis of the instrument is z): for an axis
+        # that is not perpendicular to the beam g_to_k does not invert k_to_g
+        with np.errstate(invalid="ignore", divide="ignore"):
+            s1, s2, v = gg.g_to_k(g.copy(), lam, axis=ax, pre=pre.T, post=W.dot(C))
+        d1 = np.abs((s1 - angles + 180.0) % 360.0 - 180.0)
+        d2 = np.abs((s2 - angles + 180.0) % 360.0 - 180.0)
+        stats["oblique_axis_g_to_k_rows"] += n
+        stats["oblique_axis_g_to_k_misses"] += int((~(np.minimum(d1, d2) <= 1e-3) | ~np.asarray(v, bool)).sum())
     return J, stats
